@@ -488,7 +488,10 @@ def pool_defs():
 
 
 def module_names():
-    return sorted(f[:-4] for f in os.listdir(MODULE_FILES_DIR) if f.endswith(".ckl"))
+    """The bundled modules; base and legacy (which re-export the others) last,
+    so that a function is attributed to the module that defines it."""
+    mods = sorted(f[:-4] for f in os.listdir(MODULE_FILES_DIR) if f.endswith(".ckl"))
+    return [m for m in mods if m not in ("base", "legacy")] + [m for m in mods if m in ("base", "legacy")]
 
 
 def _def_site(f):
@@ -592,6 +595,8 @@ def _sweep_chunk(job):
             o = timed(lambda: it.interpret(src, "c16"), 3.0)
             stats["calls"] += 1
             stats[o[0]] += 1
+            if o[0] == "timeout":
+                aliasres.setdefault("timeout:" + name, src)
             post = snapshot()
             events.append({"op": "call", "fn": name, "args": list(tup), "post": post,
                            "src": f"{label}: {src}", "outcome": o[0]})
@@ -637,8 +642,12 @@ def sweep(run, rng, maxar, cap, pool):
                                "post": [ident(s) for s in e["post"]]})
             meta.append(e)
     for name in sorted(aliasres):
-        if name not in ("append", "append_all", "insert_at", "delete_at", "remove", "put"):
+        if name.startswith("timeout:"):
+            run.drift("B-call-did-not-finish-in-3s", {"fn": name[8:], "call": aliasres[name]})
+        elif name not in ("append", "append_all", "insert_at", "delete_at", "remove", "put"):
             run.drift("B-result-is-its-argument", {"fn": name, "call": aliasres[name]})
+    stats["result_is_argument_fns"] = sorted(k for k in aliasres if not k.startswith("timeout:"))
+    stats["timeout_calls"] = sorted(v for k, v in aliasres.items() if k.startswith("timeout:"))
     return funcs, events, meta, table, stats
 
 
